@@ -241,7 +241,7 @@ class EMG(Block):
         Removes a signal specified by its label from the EMG block
         """
         try:
-            pos = next(i for i, v in enumerate(self._signals) if v == label)
+            pos = next(i for i, v in enumerate(self._signals) if v.label == label)
         except StopIteration:
             raise KeyError(f"EMG signal with label {label} not found")
 
